@@ -122,6 +122,7 @@ pub fn add_plugin(md: &mut MarkdownIt, c: char) {
         't' => inline::entity::add(md),
         'c' => block::code::add(md),
         'f' => block::fence::add(md),
+        'F' => block::fence::add_with_lang_prefix(md, "lang-"),
         'q' => block::blockquote::add(md),
         'h' => block::hr::add(md),
         'u' => block::list::add(md),
@@ -157,13 +158,30 @@ fn gauge_reset() {}
 #[cfg(not(markdown_it_verif))]
 fn gauge_max() -> String { "na".into() }
 
+#[cfg(markdown_it_verif)]
+fn probe_start(on: bool) { markdown_it::verif::set_probe(on); }
+#[cfg(markdown_it_verif)]
+fn probe_result() -> String {
+    let (calls, log) = markdown_it::verif::probe_take();
+    markdown_it::verif::set_probe(false);
+    format!("{}:{}:{}", calls, log.len(), log.first().map(|s| hex(s.as_bytes())).unwrap_or_else(|| "-".into()))
+}
+#[cfg(not(markdown_it_verif))]
+fn probe_start(_on: bool) {}
+#[cfg(not(markdown_it_verif))]
+fn probe_result() -> String { "na".into() }
+
 pub fn parse_report(md: &MarkdownIt, src: &str, flags: &str) -> String {
     gauge_reset();
+    let probing = flags.contains('P');
+    if probing { probe_start(true); }
     let root = md.parse(src);
+    let probe = if probing { Some(probe_result()) } else { None };
     let gauge = gauge_max();
     let tree1 = dump_tree(&root);
     let depth = tree_depth(&root);
     let mut res = format!("ok depth={} gauge={}", depth, gauge);
+    if let Some(p) = probe { res.push_str(&format!(" probe={}", p)); }
     if flags.contains('T') { res.push_str(&format!(" tree={}", tree1)); }
     if flags.contains('R') {
         let html = root.render();
